@@ -26,12 +26,15 @@ W_LATIN1 = ["Käse", "über", "façade", "Straße", "Ärger"]
 W_WIDE = ["łódź", "中文", "\U0001d518ber", "\U0001f600x", "αβ"]
 W_XML = ["a&b", "<tag>", "\"q\"", "it's", "x>y", "&amp;", "<"]
 W_PAREN = ["(", ")", "-LRB-", "-RRB-", "[", "]", "{", "}", "a(b", "-LSB-", "(s)", "[x]",
-           "{a}(b)", "f(x)[0]"]
+           "{a}(b)", "f(x)[0]",
+           "-(-", "-]-", "-}-"]       # a bracket between dashes: replacement order matters
 W_PUNCT = [",", ".", "?", "!", ";", ":", "--", "-", "/", "..."]
 W_PAIR = ["\"", "'", "''", "`", "``"]
 W_HASH = ["#5021", "#12", "#", "#abc", "#1234x", "##", "#500th",
           # words that begin like the keywords / comment marker of the export format
-          "#BOS", "#BOSTON", "%%", "%%-Punkte", "%", "#FORMAT", "#BOS1"]
+          "#BOS", "#BOSTON", "%%", "%%-Punkte", "%", "#FORMAT", "#BOS1",
+          # words that look like positions / node numbers
+          "0", "7", "500", "999", "1000"]
 W_PARENTOK = ["(", ")"]           # stand-alone bracket tokens
 W_USPACE = ["10\u00a0000", "a\u2009b", "\u00a0", "x\u3000y"]      # not whitespace for the formats
 W_LEN = ["abcdefg", "abcdefgh", "abcdefghijklmno", "abcdefghijklmnop", "abcdefghijklmnopq",
@@ -302,6 +305,35 @@ def twin_sentence(rng, k, sid=1, copies=None):
         tokens.extend(clone(base["tokens"]))
         kids.extend(shift(c, r * n) for c in base["root"][2])
     return {"sid": sid, "tokens": tokens, "root": [ROOT, "--", kids]}
+
+
+def gap_twin(rng, sent, sid=None):
+    """The same tokens under the same labels, but two tokens of different constituents have
+    changed places in the tree: mostly the same bare rules as `sent` with other
+    linearizations (and other fan-outs).  None if no discontinuous variant was found."""
+    for _ in range(8):
+        s = clone(sent)
+        leaves = []
+
+        def walk(n):
+            for i, c in enumerate(n[2]):
+                if isinstance(c, int):
+                    leaves.append((n, i))
+                else:
+                    walk(c)
+        walk(s["root"])
+        if len(leaves) < 3:
+            return None
+        (a, i), (b, j) = rng.sample(leaves, 2)
+        if a is b:
+            continue
+        a[2][i], b[2][j] = b[2][j], a[2][i]
+        s["root"] = sort_children(s["root"])
+        if not is_continuous(s) or not is_continuous(sent):
+            if sid is not None:
+                s["sid"] = sid
+            return s
+    return None
 
 
 def add_twins(rng, tb, k, p=0.25):
